@@ -199,7 +199,10 @@ def build_funcs(spec, *, hook=None, cache=None, extra: dict | None = None) -> li
     out = []
     for i, f in enumerate(spec["funcs"]):
         ren = f.get("ren", {})
-        orig_params = [ren.get(p, p) for p in f["params"]]
+        # "ren_param_to" {original: new}: a PARAMETER renamed onto a name that `ren` cannot express (e.g. the function's own output name)
+        rp = f.get("ren_param_to", {})
+        inv_rp = {v: k for k, v in rp.items()}
+        orig_params = [inv_rp.get(p, ren.get(p, p)) for p in f["params"]]
         sigdef = {ren.get(p, p): v for p, v in f.get("sigdef", {}).items()}
         fn = make_dataclass(f.get("tag", f["name"]), orig_params, sigdef, hook) if f.get("dataclass") else terms.make_function(f.get("tag", f["name"]), orig_params, len(f["outs"]), sig_defaults=sigdef, hook=hook,
                                  returns_none=bool(f.get("none")), dict_keys=list(f["outs"]) if f.get("picker") else None)
@@ -209,6 +212,8 @@ def build_funcs(spec, *, hook=None, cache=None, extra: dict | None = None) -> li
             kw["output_picker"] = pick_by_name
         if ren:
             kw["renames"] = {v: k for k, v in ren.items()}
+        if rp:
+            kw["renames"] = {**kw.get("renames", {}), **rp}
         if f.get("pfdef"):
             kw["defaults"] = dict(f["pfdef"])
         if f.get("bound"):
